@@ -16,3 +16,7 @@ package seq
 //@   pure
 //@ func (Appender).AppendQLetters
 //@   pure
+
+// At is an observer (pure).
+//@ func (Sequence).At
+//@   pure
